@@ -226,3 +226,30 @@ def x08(ctx):
     rnd = ctx.path("cases-b.ndjson")
     vlib.harness(["gen", "norm", ctx.seed, 4000 if q else 40000, rnd])
     vlib.exec_and_judge(ctx, "norm", rnd, "Trace_Norm", "B", sample_keys=keys)
+
+
+@ext("X09", "kwin", "Trace_KWindows", "sliding-window finder (utils::find_subsequences_of_max_size_k), byte / character windows of text.rs, accumulate, run-length coding")
+def x09(ctx):
+    q = ctx.quick()
+    ml = 4 if q else 5
+    ctx.rule = ("MC: the finder of src/utils.rs as the state machine of the code, stepped on every sequence of up to %d weights 0-3 x "
+                "limits 0-6 x {sum, padded}: no step evaluates an empty window (slice panic), the emitted windows are at every moment a "
+                "prefix of the maximal fitting windows by start, at the end all of them, every value that fits on its own is covered, "
+                "starts and ends grow strictly, the machine ends; run-length coding is the one encoding into non-empty runs with "
+                "differing neighbours. A: every sequence up to %d x limit 0-7 x both size functions through the real finder, every text "
+                "of up to %d characters of 1-4 bytes x byte limit 0-9 / character limit through possible_byte_substrings / "
+                "possible_character_substrings (both cluster modes), every sequence over three values through run_length_encode / "
+                "decode / accumulate, every list of <= 3 (value, count 0-2) pairs through run_length_decode; B: random (longer, "
+                "larger weights, weights in units of 100 000). non-trivial = two or more windows / a run of two or more" % (ml + 1, ml, ml - 1))
+    ctx.assumptions = ["size functions are monotone (sum of weights, largest weight x count): the two the library passes in"]
+    vlib.mc(ctx, "MC_KWindows", "CONSTANTS MaxLen = %d MaxW = 3 MaxK = 6\nSPECIFICATION Spec\nINVARIANTS TypeOK WindowNonEmpty OutIsPrefix DoneIsAll "
+            "Covering Increasing RleIsTheEncoding\nPROPERTY Terminates\nCHECK_DEADLOCK FALSE\n" % (ml + 1 if not q else ml), name="MC_KWindows", workers=8)
+    gcfg = "CONSTANTS MaxLen = %d\nINIT Init\nNEXT Next\nCHECK_DEADLOCK FALSE\n" % ml
+    keys = ["kind", "v", "k", "f", "out", "e", "enc"]
+    for fam in ("find", "text", "code"):
+        cases, n = vlib.tlc_generate(ctx, "Gen_KWindows", gcfg, "cases-a-%s.ndjson" % fam, env={"FAMILY": fam})
+        vlib.exec_and_judge(ctx, "kwin", cases, "Trace_KWindows", "A-" + fam, sample_keys=keys)
+    ctx.exhaustive = True
+    rnd = ctx.path("cases-b.ndjson")
+    vlib.harness(["gen", "kwin", ctx.seed, 4000 if q else 40000, rnd])
+    vlib.exec_and_judge(ctx, "kwin", rnd, "Trace_KWindows", "B", sample_keys=keys)
